@@ -27,13 +27,11 @@ Example C06_nonvacuous :
   exists s, check_all prog_ok = Some s /\ errs s = [] /\
     lookup (cache s) 2 = Some (mkres TFStr true (Some (VStr [102]))) /\
     lookup (cache s) 3 = Some (mkres TInt false (Some (VInt 7))) /\
-    (forall d, In d prog_ok -> unvalued_bound prog_ok (lookup (cache s)) (dinit d) = false) /\
     vfrag prog_ok (lookup (cache s)) (e_index (EIdent 1) (e_int 9)) = true /\
     cexpr prog_ok (lookup (cache s)) (e_index (EIdent 1) (e_int 9)) = PErr EIndexOOR.
 Proof.
   eexists. split; [vm_compute; reflexivity|]. split; [reflexivity|]. split; [reflexivity|]. split; [reflexivity|].
-  split; [|split; vm_compute; reflexivity].
-  intros d H. cbn in H. repeat (destruct H as [<-|H]; [vm_compute; reflexivity|]). destruct H.
+  split; vm_compute; reflexivity.
 Qed.
 
 (* P1  termination: the stated fuel (number of decls + 1 per top-level call) always suffices — the
@@ -85,41 +83,45 @@ Theorem C06_published_is_pure : forall ds s, check_all ds = Some s ->
 Proof. exact cached_is_pure. Qed.
 Print Assumptions C06_published_is_pure.
 
-(* P4  value: outside Known_C06_slice_bound_unvalued, every value the compiler computes for a
-       const is the value its initializer denotes at run time (rho: any run-time environment in
-       which each const holds the value of its own initializer) *)
+(* P4  value: every value the compiler computes for a const is the value its initializer denotes
+       at run time, and inhabits the published type (rho: any run-time environment in which each
+       const holds the value of its own initializer).  Unconditional since the repair of
+       slice-bound-unvalued. *)
 Theorem C06_const_value_agrees : forall ds pw rho s,
   check_all ds = Some s -> rt_consistent pw ds rho ->
-  (forall d, In d ds -> unvalued_bound ds (lookup (cache s)) (dinit d) = false) ->
   forall n r v, lookup (cache s) n = Some r -> rval r = Some v ->
     rho n = Some v /\ has_type v (rty r) = true.
 Proof.
-  intros ds pw rho s E RC NU n r v L V.
-  destruct (cache_agrees ds pw rho RC s E NU) as [EA CW].
+  intros ds pw rho s E RC n r v L V.
+  destruct (cache_agrees ds pw rho RC s E) as [EA CW].
   split; [exact (EA n r v L V)|exact (CW n r L v V)].
 Qed.
 Print Assumptions C06_const_value_agrees.
 
 (* P4' the same for any expression over any environment that agrees with run time *)
 Theorem C06_const_value_agrees_expr : forall ds c pw rho e r v,
-  env_agree c rho -> unvalued_bound ds c e = false ->
-  cexpr ds c e = POk r -> rval r = Some v -> rt_eval pw rho e = RVal v.
-Proof. intros ds c pw rho e r v EA U C V. exact (proj1 (value_agrees ds c pw rho EA) e U r v C V). Qed.
+  env_agree c rho -> cexpr ds c e = POk r -> rval r = Some v -> rt_eval pw rho e = RVal v.
+Proof. intros ds c pw rho e r v EA C V. exact (proj1 (value_agrees ds c pw rho EA) e r v C V). Qed.
 Print Assumptions C06_const_value_agrees_expr.
 
-(* const C0: str = "abcdef"[1 + 1 : ]   — published value "abcdef", run-time value "cdef" *)
+(* regression witnesses for the repaired finding slice-bound-unvalued:
+   const C0: str = "abcdef"[1 + 1 : ]          publishes NO value (was "abcdef"; run time "cdef")
+   const C0: str = "abcdef"[4 : 1 : 0 - 1][0]  is accepted (was: spurious IndexError; run time "e") *)
 Definition e_slice_unvalued : expr :=
   ENode (NSlice true false false) (ECons (ELit (LStr s_abcdef)) (ECons (e_bin BAdd (e_int 1) (e_int 1)) ENil)).
-Theorem C06_slice_bound_unvalued_refuted : exists ds s e,
-  check_all ds = Some s /\ find_decl ds 0 = Some (mkdecl 0 (Some TStr) e) /\
-  unvalued_bound ds (lookup (cache s)) e = true /\
-  lookup (cache s) 0 = Some (mkres TFStr true (Some (VStr s_abcdef))) /\
-  rt_eval pw0 rho0 e = RVal (VStr [99; 100; 101; 102]).
-Proof.
-  exists [mkdecl 0 (Some TStr) e_slice_unvalued]. eexists. exists e_slice_unvalued.
-  split; [vm_compute; reflexivity|]. repeat split; vm_compute; reflexivity.
-Qed.
-Print Assumptions C06_slice_bound_unvalued_refuted.
+Definition e_slice_unvalued2 : expr :=
+  e_index (ENode (NSlice true true true)
+             (ECons (ELit (LStr s_abcdef)) (ECons (e_int 4) (ECons (e_int 1) (ECons (e_bin BSub (e_int 0) (e_int 1)) ENil)))))
+          (e_int 0).
+Theorem C06_slice_bound_unvalued_fixed :
+  (exists s, check_all [mkdecl 0 (Some TStr) e_slice_unvalued] = Some s /\ errs s = [] /\
+             lookup (cache s) 0 = Some (mkres TFStr true None) /\
+             rt_eval pw0 rho0 e_slice_unvalued = RVal (VStr [99; 100; 101; 102])) /\
+  (exists s, check_all [mkdecl 0 (Some TStr) e_slice_unvalued2] = Some s /\ errs s = [] /\
+             lookup (cache s) 0 = Some (mkres TFStr true None) /\
+             rt_eval pw0 rho0 e_slice_unvalued2 = RVal (VStr [101])).
+Proof. split; eexists; (split; [vm_compute; reflexivity|]); repeat split; vm_compute; reflexivity. Qed.
+Print Assumptions C06_slice_bound_unvalued_fixed.
 
 (* P5  errors: on the valued strict fragment [vfrag] the compile-time diagnostic is exactly the
        run-time exception: "string index out of range" <-> IndexError, "slice step cannot be
@@ -174,8 +176,7 @@ Print Assumptions C06_eager_and_or_refuted.
 (* P6  type (partial): every VALUE the evaluator computes inhabits the type it reports, for every
        const of every program (so with P4 the run-time value has the published type).
        Missing: results for which only a type is computed (numeric arithmetic, comparisons,
-       tuples, frozen collections) are not proved against the run-time value's type; for
-       collections the statement is false: *)
+       tuples, frozen collections) are not proved against the run-time value's type *)
 Theorem C06_const_type_agrees_partial : forall ds s, check_all ds = Some s ->
   forall n r v, lookup (cache s) n = Some r -> rval r = Some v -> has_type v (rty r) = true.
 Proof.
@@ -191,18 +192,13 @@ Proof.
 Qed.
 Print Assumptions C06_const_type_agrees_partial.
 
-(* const C0 = [1, "a"]   — published type FrozenList[int] *)
-Theorem C06_hetero_collection_refuted : exists ds s e v,
-  check_all ds = Some s /\ find_decl ds 0 = Some (mkdecl 0 None e) /\ errs s = [] /\
-  hetero ds (lookup (cache s)) e = true /\
-  lookup (cache s) 0 = Some (mkres (TFList TInt) true None) /\
-  rt_eval pw0 rho0 e = RVal v /\ has_type v (TFList TInt) = false.
-Proof.
-  set (e := ENode NList (ECons (e_int 1) (ECons (ELit (LStr [97])) ENil))).
-  exists [mkdecl 0 None e]. eexists. exists e. eexists.
-  split; [vm_compute; reflexivity|]. repeat split; vm_compute; reflexivity.
-Qed.
-Print Assumptions C06_hetero_collection_refuted.
+(* regression witness for the repaired finding hetero-collection:
+   const C0 = [1, "a"]   is rejected with a type mismatch at the second element (was: FrozenList[int]) *)
+Theorem C06_hetero_collection_fixed : exists s,
+  check_all [mkdecl 0 None (ENode NList (ECons (e_int 1) (ECons (ELit (LStr [97])) ENil)))] = Some s /\
+  errs s = [EElemMismatch] /\ cache s = [] /\ pubs s = [].
+Proof. eexists. split; [vm_compute; reflexivity|]. repeat split; reflexivity. Qed.
+Print Assumptions C06_hetero_collection_fixed.
 
 (* P7  the compile-time string kernels are Python's indexing and slicing, for all strings and all
        index / bound / step values (over Z: C05 owns the i64 overflow of huge steps) *)
